@@ -55,7 +55,11 @@ Content(tree, f) == IF f.r = 0
 RECURSIVE MainScan(_, _)
 MainScan(tree, i) == IF i = 0 THEN <<>>                                 \* reverse scan: highest layer first
                      ELSE IF tree.main[i] # "absent" THEN <<File(i, 0)>> ELSE MainScan(tree, i - 1)
-DropsOf(tree, i) == LET s == SetToSortSeq({n \in tree.drop[i] : Carries(n)}, <) IN     \* alphasort = index order
+\* postfix directory of drop-in n in layer i (CONFIG_DIRS / econf_set_conf_dirs lists): 1 unless the tree says otherwise
+PdOf(tree, i, n) == IF "pd" \in DOMAIN tree THEN tree.pd[i][n] ELSE 1
+\* inside a layer: postfix directories in list order, inside a directory alphasort = index order
+DropsOf(tree, i) == LET s == SetToSortSeq({n \in tree.drop[i] : Carries(n)},
+                                          LAMBDA x, y : PdOf(tree, i, x) < PdOf(tree, i, y) \/ (PdOf(tree, i, x) = PdOf(tree, i, y) /\ x < y)) IN
                     [j \in 1..Len(s) |-> File(i, s[j])]
 RECURSIVE AllDrops(_, _)
 AllDrops(tree, i) == IF i > NLy(tree) THEN <<>> ELSE DropsOf(tree, i) \o AllDrops(tree, i + 1)
@@ -110,7 +114,9 @@ RefMain(tree) == IF HasMain(tree) = {} THEN <<>> ELSE <<MapOf(Content(tree, File
 \* effective drop-ins: carry the suffix; no higher layer holds the same name
 Effective(tree) == {<<i, n>> \in (1..NLy(tree)) \X (1..NNames) :
                       n \in tree.drop[i] /\ Carries(n) /\ \A j \in (i+1)..NLy(tree) : n \notin tree.drop[j]}
-EffSeq(tree) == SetToSortSeq(Effective(tree), LAMBDA x, y : x[1] < y[1] \/ (x[1] = y[1] /\ x[2] < y[2]))
+\* ascending by layer, then postfix directory (list order: "the last entry has the highest priority"), then name
+EffSeq(tree) == SetToSortSeq(Effective(tree), LAMBDA x, y : x[1] < y[1] \/ (x[1] = y[1] /\
+                     (PdOf(tree, x[1], x[2]) < PdOf(tree, y[1], y[2]) \/ (PdOf(tree, x[1], x[2]) = PdOf(tree, y[1], y[2]) /\ x[2] < y[2]))))
 NothingThere(tree) == HasMain(tree) = {} /\ \A i \in 1..NLy(tree) : {n \in tree.drop[i] : Carries(n)} = {}
 EmptyMap == [p \in {} |-> <<>>]
 UapiRef(tree) == IF NothingThere(tree) THEN [rc |-> "ECONF_NOFILE", map |-> EmptyMap]
